@@ -93,8 +93,41 @@ def routeLine (auth : Bool) (modes : List Mode) (evs : List (Nat × REv)) : Opti
   let outs := rrun auth modeOf (RState.init modeOf) evs
   pure (" ".intercalate (outs.map (fun x => showROut (modeOf x.1) x.2)))
 
+/-- `A0` / `A1` tokens switch the state of the `upstream_auth` option for the events that follow -/
+def withAuth (auth0 : Bool) (toks : List String) : List (Bool × String) :=
+  (toks.foldl (fun (acc : Bool × List (Bool × String)) t =>
+    if t = "A0" then (false, acc.2) else if t = "A1" then (true, acc.2) else (acc.1, acc.2 ++ [(acc.1, t)])) (auth0, [])).2
+
+open MitmVerif.C24.Route in
+def routeVarLine (modes : List Mode) (evs : List (Nat × Bool × REv)) : Option String := do
+  let modeOf : Nat → Mode := fun c => modes.getD c .regular
+  if evs.any (fun x => x.1 ≥ modes.length) then none
+  let outs := rrunVar modeOf (RState.init modeOf) evs
+  pure (" ".intercalate (outs.map (fun x => showROut (modeOf x.1) x.2)))
+
+def runVarLine (modes : List Mode) (evs : List (Nat × Bool × Ev)) : Option String := do
+  let modeOf : Nat → Mode := fun c => modes.getD c .regular
+  if evs.any (fun x => x.1 ≥ modes.length) then none
+  let outs := runVar modeOf State.init evs
+  let fin := evs.foldl (fun σ x => (step x.2.1 (modeOf x.1) σ x.1 x.2.2).1) State.init
+  let tl := (List.range modes.length).filter (fun c => fin.tunneled.contains c)
+  pure (" ".intercalate (outs.map (fun x => showStep x.2.1 x.2.2)) ++ " | " ++
+    (if tl.isEmpty then "-" else ",".intercalate (tl.map toString)))
+
 def stepLine (line : String) : String :=
   match fields line with
+  | "routev" :: auth :: modes :: evs =>
+    if auth ≠ "0" ∧ auth ≠ "1" then "bad-op" else
+    match (modes.splitOn ",").mapM parseMode,
+          (withAuth (auth = "1") evs).mapM (fun x => (parseREv x.2).map (fun e => (e.1, x.1, e.2))) with
+    | some ms, some es => (routeVarLine ms es).getD "bad-op"
+    | _, _ => "bad-op"
+  | "runv" :: auth :: modes :: evs =>
+    if auth ≠ "0" ∧ auth ≠ "1" then "bad-op" else
+    match (modes.splitOn ",").mapM parseMode,
+          (withAuth (auth = "1") evs).mapM (fun x => (parseEv x.2).map (fun e => (e.1, x.1, e.2))) with
+    | some ms, some es => (runVarLine ms es).getD "bad-op"
+    | _, _ => "bad-op"
   | "route" :: auth :: modes :: evs =>
     if auth ≠ "0" ∧ auth ≠ "1" then "bad-op" else
     match (modes.splitOn ",").mapM parseMode, evs.mapM parseREv with
